@@ -4,6 +4,7 @@
 //! trusted: R15 (deep slice): the aggregation loop nest of update_claims_view_from_requests verbatim as a function of the request vector; the two tests of the time-lock split are extracted as two further slices; duplicate filtering before it and claim generation after it are dropped and not claimed
 //! trusted: R15 (deep slices): update_claims_view_from_matched_txn: the body of `if at_least_one_drop { .. }` (the statement that records the split request as a bump candidate and the removal of its pending claim events) and the body of the loop that reschedules requests whose timer expired, verbatim, as functions of the candidate map, the claim id and the request; the `#[cfg(debug_assertions)]` counting assertions are dropped (cfg debug_assertions=false for these two extracts); the candidate map is an environment type: insert/remove have the std contracts, the entry API is over-approximated (key present afterwards, present values unchanged, absent value unconstrained); matching confirmed inputs to requests, split_package, the ANTI_REORG_DELAY bookkeeping and generate_claim are dropped and not claimed
 //! trusted: R15 (deep slices): update_claims_view_from_matched_txn: the two OnchainEventEntry constructions (the function-local macro clean_claim_request_after_safety_delay! and the ContentiousOutpoint loop), verbatim as functions of the transaction, the confirming block and the current height (Txid/BlockHash/ClaimId/PackageTemplate skeletons, compute_txid external_body)
+//! trusted: R15 (deep slice): blocks_disconnected: the body of `if request.can_merge_with(&package, new_best_height + 1) { .. continue; }` in the ContentiousOutpoint arm, verbatim as a function of the request, the package put back and the candidate map (the `continue` is the return value true); PackageTemplate is the skeleton {ghost outpoints, height_timer}, can_merge_with is an uninterpreted predicate, merge_package appends the other package's outpoints when that predicate holds; R8: `pending_claim.clone()` on the tuple key is the external_body wrapper clone_key (Verus has no Clone for tuples)
 //! trusted: R6: `for i in (1..requests.len()).rev() { B }` becomes a down-counting while loop over the range evaluated once (std semantics of Range/Rev), `for j in 0..i` a counting loop; `requests[j].merge_package(..)` is written `requests.get_mut(j).unwrap().merge_package(..)` (IndexMut) with its result bound to a temporary before the `if let` so that proof hints can sit between (R9, same evaluation order); PackageTemplate is a stub with a ghost input count; can_merge_with is external_body with an unconstrained answer; merge_package is external_body with the contract proved for the real function in unit u07 (Ok: inputs are concatenated; Err: self unchanged and the argument handed back) - its pkg_wf precondition is not re-established here (assumed preserved by merging)
 //! trusted: assume_specification for core::cmp::max / core::cmp::min (std definitions): present in every unit so that a change that introduces them is verified instead of being rejected by the tool
 use vstd::prelude::*;
@@ -154,6 +155,51 @@ impl CandidateMap {
     #[verifier::external_body] pub fn remove(&mut self, k: &ClaimId) -> (r: Option<PackageTemplate>)
         ensures final(self).m@ == old(self).m@.remove(*k) { unimplemented!() }
 }
+// the same map in blocks_disconnected is keyed by the claim id paired with the height the claim was first seen at
+pub struct ReorgCandidateMap { pub m: Ghost<Map<(ClaimId, u32), PackageTemplate>> }
+impl ReorgCandidateMap {
+    #[verifier::external_body] pub fn insert(&mut self, k: (ClaimId, u32), v: PackageTemplate) -> (r: Option<PackageTemplate>)
+        ensures final(self).m@ == old(self).m@.insert(k, v) { unimplemented!() }
+    #[verifier::external_body] pub fn entry(&mut self, k: (ClaimId, u32)) -> (e: Entry)
+        ensures final(self).m@.dom() == old(self).m@.dom().insert(k),
+            forall|o: (ClaimId, u32)| old(self).m@.contains_key(o) ==> #[trigger] final(self).m@[o] == old(self).m@[o] { unimplemented!() }
+}
+#[verifier::external_body] pub fn clone_key(k: &(ClaimId, u32)) -> (r: (ClaimId, u32)) ensures r == *k { unimplemented!() }
+pub struct MergeError {}
+pub uninterp spec fn can_merge_spec(r: PackageTemplate, p: PackageTemplate, h: u32) -> bool;
+impl PackageTemplate {
+    #[verifier::external_body] pub fn can_merge_with(&self, other: &PackageTemplate, cur_height: u32) -> (r: bool) ensures r == can_merge_spec(*self, *other, cur_height) { unimplemented!() }
+    #[verifier::external_body] pub fn merge_package(&mut self, other: PackageTemplate, cur_height: u32) -> (r: Result<(), MergeError>)
+        ensures can_merge_spec(*old(self), other, cur_height) ==> r is Ok && final(self).outpoints@ == old(self).outpoints@ + other.outpoints@ && final(self).height_timer == old(self).height_timer,
+            !(r is Ok) ==> *final(self) == *old(self) { unimplemented!() }
+}
+//@extract lightning/src/chain/onchaintx.rs :: impl OnchainTxHandler :: fn blocks_disconnected
+//@slice R15
+    if request.can_merge_with(&package, new_best_height + 1) { $upd:straight continue; }
+//@with
+    fn outpoint_put_back_by_a_reorg_rejoins_its_claim(bump_candidates: &mut ReorgCandidateMap, pending_claim: &(ClaimId, u32), request: &mut PackageTemplate, package: PackageTemplate, new_best_height: u32) -> bool {
+        if request.can_merge_with(&package, new_best_height + 1) { $upd return true; } false }
+//@rw R8 *
+    pending_claim.clone()
+//@with
+    clone_key(pending_claim)
+//@ret r
+//@requires
+    new_best_height < u32::MAX,
+//@ensures P C11 after-a-reorg-put-outpoints-back-into-a-request-the-claim-is-regenerated-from-the-request-as-it-is-now
+    r == can_merge_spec(*old(request), package, (new_best_height + 1) as u32),
+    r ==> final(request).outpoints@ == old(request).outpoints@ + package.outpoints@
+        && final(bump_candidates).m@ =~= old(bump_candidates).m@.insert(*pending_claim, *final(request)),
+    !r ==> *final(request) == *old(request) && final(bump_candidates).m@ == old(bump_candidates).m@,
+//@mutant snapshot_kept_from_the_first_outpoint_put_back
+    bump_candidates.insert(pending_claim.clone(), request.clone());
+//@with
+    bump_candidates.entry(pending_claim.clone()).or_insert_with(|| request.clone());
+//@mutant snapshot_taken_before_the_merge
+    assert!(request.merge_package(package, new_best_height + 1).is_ok());
+//@with
+    bump_candidates.insert(pending_claim.clone(), request.clone()); assert!(request.merge_package(package, new_best_height + 1).is_ok());
+//@end
 pub struct ClaimEvents {}
 impl ClaimEvents { #[verifier::external_body] pub fn retain<F: FnMut(&(ClaimId, u8)) -> bool>(&mut self, f: F) { unimplemented!() } }
 pub struct OnchainTxHandler { pub pending_claim_events: ClaimEvents }
